@@ -27,8 +27,8 @@ def _hist(prop, audits, profile, rule, nontrivial, deciding, anchors, quick, tho
     }
 
 
-Q = lambda cases, nops=(30, 60), **kw: dict(dict(cases=cases, nops=nops, audit_every=(3, 5, 8), time_cap=120, watchdog=300, min_cases=max(4, cases // 4), wide=300), **kw)
-T = lambda cases, nops=(40, 80, 150, 300), **kw: dict(dict(cases=cases, nops=nops, audit_every=(1, 3, 5, 10), time_cap=800, watchdog=1500, min_cases=max(8, cases // 4), wide=700), **kw)
+Q = lambda cases, nops=(30, 60), **kw: dict(dict(cases=cases, nops=nops, audit_every=(3, 5, 8), time_cap=120, watchdog=300, min_cases=max(4, cases // 4), wide=300, big=2300), **kw)
+T = lambda cases, nops=(40, 80, 150, 300), **kw: dict(dict(cases=cases, nops=nops, audit_every=(1, 3, 5, 10), time_cap=800, watchdog=1500, min_cases=max(8, cases // 4), wide=700, big=5200), **kw)
 
 PROPS = {}
 
@@ -43,7 +43,7 @@ PROPS["C01"] = _hist(
     lambda f: f["pages"] >= 8 and 0 < f["crawled"] < f["pages"],
     ["C01_pages_compared", "reports_checked"],
     ["LRUTrie.add_page", "LRUTrie.add_lru", "LRUTrie.pages_iter", "LRUTrie.count_pages", "LRUTrie.count_crawled_pages"],
-    Q(1200, sorted_chain=1100), T(2400, exhaustive_shapes=5, soak=3000, sorted_chain=1500),
+    Q(1200, sorted_chain=1100), T(6000, exhaustive_shapes=5, soak=3000, sorted_chain=1500),
 )
 
 PROPS["C02"] = _hist(
@@ -88,7 +88,7 @@ PROPS["C04"] = _hist(
     lambda f: f["we"] >= 3 and f["nested"] >= 1,
     ["C04_resolutions", "C04_resolutions_none"],
     ["LRUTrie.follow_lru", "Traph.retrieve_webentity", "Traph.retrieve_prefix", "Traph.add_prefix_to_webentity", "Traph.move_prefix_to_webentity"],
-    Q(640), T(2400),
+    Q(640), T(5000),
 )
 
 PROPS["C05"] = _hist(
@@ -101,7 +101,7 @@ PROPS["C05"] = _hist(
     lambda f: f["we"] >= 3 and f["pages"] >= 8 and f["nested"] >= 1,
     ["C05_webentities"],
     ["LRUTrie.webentity_dfs_iter", "Traph.get_webentity_pages_iter", "Traph.get_webentity_crawled_pages_iter"],
-    Q(1400), T(2400),
+    Q(1400), T(8000),
 )
 
 PROPS["C06"] = _hist(
@@ -117,7 +117,7 @@ PROPS["C06"] = _hist(
     lambda f: f["auto_groups"] >= 2 and f["pages"] >= 5,
     ["C06_potential", "C06_resolves_after_insert", "reports_checked"],
     ["Traph.__add_page", "Traph.get_potential_prefix", "Traph.add_webentity_creation_rule_iter", "LRUTrieWalkHistory.rules_to_apply", "lru_variations"],
-    Q(640), T(2400),
+    Q(640), T(5000),
 )
 
 PROPS["C07"] = _hist(
@@ -131,7 +131,7 @@ PROPS["C07"] = _hist(
     lambda f: f["we"] >= 3 and f["pairs"] >= 6,
     ["C07_networks", "C07_transposes"],
     ["LRUTrie.dfs_with_webentity_iter", "Traph.get_webentities_links_iter", "Traph.get_webentities_links_slow_iter", "LRUTrie.windup_lru_for_webentity"],
-    Q(1100), T(2000),
+    Q(1100), T(5000),
 )
 
 PROPS["C08"] = _hist(
@@ -158,7 +158,7 @@ PROPS["C13"] = _hist(
     lambda f: f["we"] >= 3 and f["nested"] >= 2,
     ["C13_webentities", "C13_children_expected"],
     ["LRUTrie.dfs_iter", "Traph.get_webentity_child_webentities_iter", "Traph.get_webentity_parent_webentities", "LRUTrie.add_lru"],
-    Q(1200, nops=(40, 80, 120)), T(2400),
+    Q(1200, nops=(40, 80, 120)), T(8000),
 )
 
 PROPS["C19"] = _hist(
@@ -200,7 +200,7 @@ PROPS["C12"] = _hist(
     lambda f: f["auto_groups"] >= 3 and (f["reopens"] >= 1 or f["deletes"] >= 1),
     ["ids_checked", "reopens"],
     ["Traph.__generated_web_entity_id", "LRUTrieHeader.write", "LRUTrieHeader.increment_last_webentity_id", "Traph.__add_prefixes"],
-    Q(800), T(3000),
+    Q(800), T(8000),
 )
 
 def _paging(prop, profile, rule, nontrivial, deciding, anchors, quick, thorough):
@@ -224,7 +224,7 @@ PROPS["C09"] = _paging(
     ["C09_paginations", "C09_multi_call_paginations", "C09_resumes", "C09_codec_roundtrips"],
     ["LRUTrie.webentity_inorder_iter", "Traph.paginate_webentity_pages", "build_pagination_token", "parse_pagination_token"],
     dict(cases=640, nops=(20, 40), time_cap=120, watchdog=400, min_cases=100, w_random=3, w_shape=1, codec_len=6, codec_random=300, deep_n=1200),
-    dict(cases=3000, nops=(25, 50, 90), time_cap=800, watchdog=1500, min_cases=400, w_random=3, w_shape=1, exhaustive_shapes=6,
+    dict(cases=20000, nops=(25, 50, 90), time_cap=800, watchdog=1500, min_cases=400, w_random=3, w_shape=1, exhaustive_shapes=6,
          codec_len=8, codec_random=5000, deep_n=1200),
 )
 
@@ -241,7 +241,7 @@ PROPS["C10"] = _paging(
     ["C10_paginations", "C10_multi_call_paginations", "C10_resumes"],
     ["LRUTrie.webentity_inorder_iter", "Traph.paginate_webentity_pagelinks", "Traph.get_webentity_pagelinks_iter"],
     dict(cases=640, nops=(20, 40), time_cap=120, watchdog=400, min_cases=100, w_random=3, w_shape=1, deep_n=1200),
-    dict(cases=3000, nops=(25, 50, 90), time_cap=800, watchdog=1500, min_cases=400, w_random=3, w_shape=1, exhaustive_shapes=6, deep_n=1200),
+    dict(cases=20000, nops=(25, 50, 90), time_cap=800, watchdog=1500, min_cases=400, w_random=3, w_shape=1, exhaustive_shapes=6, deep_n=1200),
 )
 
 PROPS["C17"] = {
@@ -258,7 +258,7 @@ PROPS["C17"] = {
                           "contract_evals:traph.lru_variations(bound name)"],
     "anchors": ["lru_variations", "https_variation", "Traph.expand_prefix"],
     "quick": dict(max_hosts=3, max_paths=1, random=24000, e2e=160, shards=8, watchdog=300, min_cases=500),
-    "thorough": dict(max_hosts=3, max_paths=2, random=200000, e2e=1500, shards=16, watchdog=1500, min_cases=5000),
+    "thorough": dict(max_hosts=3, max_paths=2, random=1200000, e2e=6000, shards=16, watchdog=1500, min_cases=5000),
     "level": "exploration",
     "assumptions": ["the enumerated grammar is bounded (H=3 hosts, P<=2 path stems from 7 values); longer LRUs are sampled only"],
 }
@@ -314,7 +314,7 @@ PROPS["C14"] = {
     "deciding_counters": ["C14_windows", "C14_calls_succeeded", "C14_calls_refused_with_library_error", "C14_iterator_steps"],
     "anchors": ["LRUTrie.follow_lru", "LRUTrie.lru_node", "Traph.get_potential_prefix", "LRUTrieNode.write", "LRUTrie.add_lru"],
     "quick": dict(cases=128, nops=(15, 30), points=2, time_cap=150, watchdog=400, min_cases=32),
-    "thorough": dict(cases=900, nops=(20, 40, 80), points=3, time_cap=900, watchdog=1600, min_cases=150),
+    "thorough": dict(cases=4000, nops=(20, 40, 80), points=3, time_cap=900, watchdog=1600, min_cases=150),
     "level": "exploration",
     "assumptions": ["the list of read-only methods is explicit (vt/battery.py); an unclassified public method makes the run inconclusive",
                     "a foreign (non-library) exception in a query is counted, not judged: the statement covers success and library errors"],
